@@ -189,12 +189,18 @@ def check_archive(kinds):
     return bad, n
 
 
-SPECIAL = [("file", "m.mbox", worlds.MBOX), ("file", "md/cur/1:2,S", worlds.MAIL1), ("dir", "md/new/"), ("dir", "md/tmp/"), ("file", "plain.txt", b"plain\n")]
+SPECIAL = [("file", "box/in", worlds.MBOX), ("file", "m.mbox", worlds.MBOX), ("file", "md/cur/1:2,S", worlds.MAIL1), ("dir", "md/new/"), ("dir", "md/tmp/"), ("file", "plain.txt", b"plain\n")]
 
 
 def check_special(cwdmode):
     """Members shaped like mailboxes, Maildirs, scripts and PYG modules."""
     import io
+
+    order = "full"
+    if cwdmode.endswith("+zipfirst"):
+        # "the handlers are tried in the order listed": the same list with the archive handler in front
+        cwdmode = cwdmode[: -len("+zipfirst")]
+        order = "[ZIP.ZIPHandler, " + rig.full_handler_list().strip()[1:].replace("ZIP.ZIPHandler,", "")
 
     buf = io.BytesIO()
     canary = os.path.join(rig.scratch_root(), "c16-canary-%d" % os.getpid())
@@ -220,9 +226,9 @@ def check_special(cwdmode):
     # the working directory holds same-named REAL objects
     cwd = os.path.join(base, "site")
     if cwdmode == "shadow":
-        rig.build_tree(cwd, {"m.mbox": worlds.MBOX.replace(b"first", b"SHADOW"), "md": {"cur": {"9:2,S": b"Subject: SHADOW\n\nx\n"}, "new": {}, "tmp": {}},
+        rig.build_tree(cwd, {"box": {"in": worlds.MBOX.replace(b"first", b"SHADOW")}, "m.mbox": worlds.MBOX.replace(b"first", b"SHADOW"), "md": {"cur": {"9:2,S": b"Subject: SHADOW\n\nx\n"}, "new": {}, "tmp": {}},
                              "s.sh": ("exec", b"#!/bin/sh\necho SHADOW-RAN\n"), "p.pyg": ("exec", worlds.PYG)})
-    w = rig.World(handlers="full", root=root, cachetime=0, tag="c16sw")
+    w = rig.World(handlers=order, root=root, cachetime=0, tag="c16sw", handlers_DOT_ZIP_DOT_ZIPHandler__enabled="true")
     bad = []
     n = 0
     old = os.getcwd()
@@ -255,7 +261,7 @@ def check_special(cwdmode):
                 if outs:
                     bad.append((form, sel, "outside-root", "serving member %s touched %r" % (sel, outs[:2])))
         # message selectors into mailbox-shaped members: no such thing inside an archive
-        for sel in ("/S.zip/m.mbox|/MBOX-MESSAGE/1", "/S.zip/md|/MAILDIR-MESSAGE/cur/1:2,S", "/S.zip/md|/MAILDIR-MESSAGE/cur/9:2,S", "/m.mbox|/MBOX-MESSAGE/1", "/md|/MAILDIR-MESSAGE/cur/9:2,S"):
+        for sel in ("/S.zip/box/in|/MBOX-MESSAGE/1", "/S.zip/m.mbox|/MBOX-MESSAGE/1", "/S.zip/md|/MAILDIR-MESSAGE/cur/1:2,S", "/S.zip/md|/MAILDIR-MESSAGE/cur/9:2,S", "/m.mbox|/MBOX-MESSAGE/1", "/md|/MAILDIR-MESSAGE/cur/9:2,S"):
             for form in ("gopher", "http", "gemini"):
                 monitor.start()
                 r = w.serve(*rig.request(form, sel))
@@ -281,7 +287,7 @@ def check_special(cwdmode):
             os.unlink(canary)
         # nothing appeared in the working directory
         left = sorted(os.listdir(cwd))
-        allowed = {"root"} | ({"m.mbox", "md", "s.sh", "p.pyg"} if cwdmode == "shadow" else set())
+        allowed = {"root"} | ({"box", "m.mbox", "md", "s.sh", "p.pyg"} if cwdmode == "shadow" else set())
         if set(left) - allowed:
             bad.append(("-", "-", "created-in-cwd", "the working directory gained %r" % sorted(set(left) - allowed)))
     finally:
@@ -369,7 +375,7 @@ def run(ck):
             if n == 3 and ck.tier == "quick" and not all(x in cluster for x in kinds):
                 continue
             items.append(("archive", kinds))
-    items += [("special", "plain"), ("special", "shadow"), ("escapes", "-")]
+    items += [("special", "plain"), ("special", "shadow"), ("special", "plain+zipfirst"), ("special", "shadow+zipfirst"), ("escapes", "-")]
     if ck.seed:
         import random
 
